@@ -53,6 +53,36 @@ Tolerances (all derived here, see ``tol_pos``):
   hour), 50x-300x the tolerance; every case reports that measured sensitivity and is non-trivial only above 100x.
   A satellite added at T with exactly the state of one present from the start calls the same function with the same
   arguments from then on: the two truth states must be bit-identical (no tolerance).
+* start epochs and start-date shifts that are NOT whole seconds (a start timestamp with milliseconds, a Julian date
+  typed by hand, shifts of 0.4 / 0.5 / 1800.4 / 86400.25 s): an epoch that is snapped to a grid in one split and not in
+  the other is off by <= 0.5 s.  The tolerances above cannot see that through ``propagate``: measured over LEO orbits
+  (a 6600..7500 km, 2x2 .. 8x8 fields, with and without Sun/Moon) a 0.5 s slip of the force-model epoch moves the state
+  by 0.01 - 0.16 start-epoch-shift tolerances after 300 s, 0.1 - 1.0 after 1800 s, 0.05 - 1.5 after an hour and 0.04 - 0.4
+  after two hours (the effect and the tolerance both grow with the square of the span; higher orbits are worse: the
+  tesseral field falls off with r^-4, the tolerance grows with r), so no span / orbit of the lattice resolves it.  The
+  fractional shifts run through the comparisons above unchanged (same tolerances) and two subchecks were added:
+  - force_epoch: the derivative the integrator sees (``_differentialEquation``, the property's anchor, where the epoch is
+    formed as start date + elapsed seconds) is evaluated for every split of one absolute instant and compared with the
+    other split and with the acceleration of the independent reference force model at that absolute instant.  Error
+    sources: the Julian dates of two splits differ by their rounding (datetimeToJulianDate, jd + D / 86400, jd + t / 86400:
+    <= 4 ulp of 2.46e6 d = 1.6e-4 s); the library additionally rounds the datetime it hands to the Earth-rotation angle
+    to the millisecond (julianDateToDatetime), which is why all instants of this subcheck are whole milliseconds (every
+    split then rounds to the same datetime).  Tolerance = EPOCH_RES_S = 5e-3 s (30x that bound) times the reference's own
+    rate of change of the acceleration with the epoch at fixed state (difference over one second; 1e-11 km/s^2 per s in
+    LEO with a tesseral field, 1e-14 at GEO or with zonals + Moon + SRP only) + 2e-15 |a| for the summation of the terms
+    (library - reference measured <= 1e-16 |a| where the rate term vanishes).  Measured worst ratio 0.1; a 0.25 s slip
+    is 50 tolerances in LEO and >= 30 in every configuration (it is reported as ``epoch_slip_equivalent_s``).
+  - epoch_resolution: the propagated states of two splits, RK45 on force models without SRP, spans >= 300 s.  Two error
+    sources: (a) the millisecond rounding above acts at every force evaluation of an integration (the instants are
+    arbitrary there), so the two runs see epochs up to 1 ms apart: 5e-3 s (x5) times the measured effect of moving the
+    epoch by one second, max(|dr|, |dv| / perigee rate); (b) the tiny force differences move the step-size controller
+    (step sizes, rarely an accept/reject decision), which changes the result by a fraction of the integrator's own error:
+    measured over 7280 RK45 comparisons (30 orbits a <= 12000 km, spans 300 / 1800 / 3600 s, whole / millisecond /
+    typed-Julian-date starts, shifts 0.4 .. 86400.25 s, four seeds) <= 5.6e-5 tol_pos and 8.8e-5 tol_vel; floor
+    tol_pos / 1000.  Worst measured error / (a + b) 0.067; a 0.25 s slip is 4 - 40 tolerances in LEO (median 20-25,
+    >= 9 for 90 % of the cases at every span); a case is non-trivial when a 0.25 s slip exceeds 4 tolerances.  DOP853
+    is not eligible: with 12-30 steps per LEO hour its controller noise was measured at up to 0.09 s of equivalent
+    epoch slip (RK45: 4.6e-3 s at 300 s, 7.7e-4 s at an hour), so DOP853 configurations are decided by force_epoch.
 """
 from __future__ import annotations
 
@@ -122,6 +152,17 @@ RULE = (
     "and in a second run (configurations without SRP: the events do not carry the platform's mass / area) by "
     "target_addition / sensor_addition events; every twin's state at every later step, and "
     "one step of its truth and filter dynamics objects, must be bit-identical to A's; non-trivial when T > 0. "
+    "Fractional seconds: every SP start-epoch-shift case also runs the shifts 0.4 / 0.5 / 1800.4 / 86400.25 s (spans >= 300 s; "
+    "configurations with a tesseral field) and, for RK45 up to 300 s (thorough: up to an hour), from a start epoch with "
+    "milliseconds (S + 0.224 s) and from a Julian date typed with five decimals (.58116), each shifted by 0.4 and 1000 s; every "
+    "epoch-split case with T > 0 gets one more split (S + d, T - d) with d one of 0.4 / 0.5 / 1800.4 / 86400.25 s (clock ticked to "
+    "T - d by a partial tick), and the low orbits are repeated from a start timestamp with milliseconds. All of them go through "
+    "the comparisons above and through two more: force_epoch - _differentialEquation of every split object at both ends of the "
+    "span (epoch-shift family: three start kinds x all whole and fractional shifts; epoch-split family: every factory-built "
+    "object) against the other split and against the reference force model at the absolute instant, tolerance = 5 ms of epoch; "
+    "non-trivial when the split differs (D != 0, T > 0 or fractional start) and 0.1 s of epoch exceeds 10 tolerances - and "
+    "epoch_resolution - propagated states of two splits under RK45 without SRP within 5 ms of measured epoch sensitivity + "
+    "tol_pos/1000; non-trivial when a 0.25 s epoch slip exceeds 4 tolerances. "
     "Distinct by construction (lattice points); VERIF_SEED rotates RAAN/argument of perigee/third anomaly, the SP "
     "start day, the batch column assignment and the orbit assignment of the epoch-split / twin items."
 )
@@ -135,6 +176,9 @@ ASSUMPTIONS = [
     "epoch-split reference trajectory: C13's independent force model (verif/oracles/force_ref.py) evaluated at "
     "absolute UTC instants, the library's public ecef2eci for the Earth orientation (C04's subject), scipy DOP853 at "
     "rtol 1e-12",
+    "force_epoch subcheck: SpecialPerturbations._differentialEquation(t, state) is the function solve_ivp integrates (it is "
+    "called with a plain float time and a 1-D state, as scipy does); the reference acceleration is C13's independent force "
+    "model at the absolute UTC instant, with the library's public ecef2eci for the Earth orientation",
     "twin family, event variant: a scenario_step target_addition / sensor_addition event whose start_time is the end "
     "of the step T -> T+dt is applied at clock time T, before that step is propagated (event timing is C01's "
     "subject; a change there shows under the twin/added_by_event signatures only)",
@@ -170,6 +214,18 @@ SP_CFG = {
 SAT_RATIO = 0.0605  # (1 + 0.21) * 25 m^2 / 500 kg
 A_SRP = 4.56e-6 * SAT_RATIO / 1000.0  # km/s^2 at 1 au: solar pressure 4.56e-6 N/m^2 times (1 + reflectivity) A / m
 EPOCH_SHIFTS = [1.0, 1000.0, 86400.0, -300.0]
+# start-date shifts that are NOT whole seconds (a scenario start_timestamp may carry a fraction of a second; a start epoch
+# may be typed as a Julian date): tenths, a half (the tie of a rounding), half an hour / a day plus a fraction
+EPOCH_SHIFTS_FRAC = [0.4, 0.5, 1800.4, 86400.25]
+EPOCH_SHIFTS_FRAC_LEAN = [0.4, 86400.25]
+# start epochs that are NOT whole seconds: a start timestamp with milliseconds (S + 0.224 s = 07:30:00.224) and a Julian
+# date typed by hand with five decimals (day fraction .58116 = 01:56:52.224 UTC, 0.22 s off the whole-second grid; the
+# library's own tests/dynamics use 2459690.58116); each with a whole-second and a fractional start-date shift
+FRAC_START_MS = 0.224
+FRAC_START_TYPED_JD = 0.58116
+FRAC_START_SHIFTS = [0.4, 1000.0]
+RES_FLOOR_DIV = 1000.0  # epoch-resolution subcheck: floor = tol_pos / 1000 (step-size controller decisions, see module docstring)
+EPOCH_RES_S = 5e-3  # s: largest disagreement about the force-model epoch two splits of one absolute instant may show
 RESTART_DV = [0.010, -0.020, 0.005]  # km/s, constant state change of the test event
 # ---- epoch-split family: elapsed scenario seconds at which a dynamics object is built (multiples of the 300 s clock
 # step).  600 s / 2400 s: the first steps of a run (tesseral field: 2.5 / 10 deg of Earth rotation); 30000 s: not close to
@@ -180,6 +236,13 @@ ES_T_SRP = [0.0, 2400.0, 86400.0, 129600.0, 30.0 * 86400.0]
 ES_SPANS = [300.0, 3600.0]
 ES_RK45_HOUR_T = [2400.0, 129600.0]  # quick tier: a LEO hour of SP costs 0.3 s with RK45, so RK45 x one-hour span x LEO gets these T only
 ES_CLOCK_STEP = 300.0
+# epoch split, fractional seconds: the start timestamp of the clock carries milliseconds (S + ES_START_MS), and for every
+# elapsed time T > 0 one more split (S + d, T - d) with a start-date shift d that is not a whole second (the clock is
+# ticked to T - d with a last partial tick, ScenarioClock.ticToc(dt))
+ES_START_MS = 0.224
+ES_T_MS = [0.0, 600.0, 2400.0, 86400.0]
+ES_T_MS_SRP = [0.0, 2400.0, 86400.0]
+ES_FRAC_SPLIT = {600.0: 0.4, 2400.0: 1800.4, 30000.0: 0.5, 86400.0: 1800.4, 129600.0: 86400.25, 30.0 * 86400.0: 86400.25}
 ES_MODEL = "egm96.txt"
 # spacecraft platform handed to the factory: (1 + 0.21) * 25 / 500 = SAT_RATIO, the value the direct constructions use
 ES_PLATFORM = {"type": "spacecraft", "mass": 500.0, "visual_cross_section": 25.0, "reflectivity": 0.21}
@@ -315,7 +378,12 @@ def items(tier, seed):
                 Ts = ES_T_SRP if cfg == "sp_srp" else ES_T
                 # quick tier: a LEO hour of SP costs 0.3 s with RK45 (0.02-0.1 s higher up): RK45 gets two T there
                 rk_T = Ts if (thorough or span < 3600.0 or not low) else [t for t in Ts if t in ES_RK45_HOUR_T]
-                out.append(["epoch_split", cfg, span, Ts, rk_T, jd0, seed, _orbit(i, seed)])
+                out.append(["epoch_split", cfg, span, Ts, rk_T, jd0, seed, _orbit(i, seed), 0.0])
+        # the same with a start timestamp that carries milliseconds: the low orbit(s), five minutes (RK45 resolves a
+        # 0.1 s epoch slip there), both integrators at every T
+        for i in [k for k in idxs if AE[k // 15][0] < 12000.0]:
+            Ts = ES_T_MS_SRP if cfg == "sp_srp" else ES_T_MS
+            out.append(["epoch_split", cfg, ES_SPANS[0], Ts, Ts, jd0, seed, _orbit(i, seed), ES_START_MS])
     # ---- twins: satellites added to a running scenario with exactly the state of one that flies from the start
     j = 0
     for cfg in es_cfgs:
@@ -345,7 +413,7 @@ def items(tier, seed):
 
 def _cost(it):
     if it[0] == "epoch_split":
-        return (0.0012 * it[2] + 0.6) * (6800.0 / it[7][0]) ** 0.5
+        return (0.0012 * it[2] + 0.6) * (6800.0 / it[7][0]) ** 0.5 * len(it[3]) / 6.0
     if it[0] == "epoch_twin":
         return 1.0
     if it[0] != "prop":
@@ -376,10 +444,21 @@ def bounds(tier, seed):
         "grids": {"grid1": [1.0], "grid3": GRID3, "grid10": GRID10, "edges": "t0+1 s, t2-1 s, t2 (0.25/0.75 for T<=2 s)"},
         "batch_sizes": sorted({len(it[7]) for it in props}), "sp_configs": {k: SP_CFG[k] for k in sorted({it[1] for it in props if it[1] != "twobody"})},
         "sp_start_epoch": _iso(_jd0(seed)), "epoch_shifts_s": EPOCH_SHIFTS, "restart_event_fractions": [0.37, 0.5],
+        "epoch_shifts_fractional_s": {"spans >= 300 s": EPOCH_SHIFTS_FRAC, "one-hour spans, quick tier": EPOCH_SHIFTS_FRAC_LEAN,
+                                      "force_epoch only (10 s spans, sp_srp)": EPOCH_SHIFTS_FRAC},
+        "fractional_start_epochs": {"ms_timestamp": _abs_dt(_frac_starts(_jd0(seed))[0][1]).isoformat(),
+                                    "typed_julian_date": repr(_frac_starts(_jd0(seed))[1][1]), "shifts_s": FRAC_START_SHIFTS,
+                                    "force_epoch_shifts_s": FRAC_START_SHIFTS + [1800.4],
+                                    "propagated": "RK45, no SRP, span 300 s" + (" and 3600 s" if tier == "thorough" else "")},
+        "force_epoch": {"tolerance_epoch_s": EPOCH_RES_S, "floor": "2e-15 |a|", "instants": "both ends of every SP span; elapsed T of every epoch-split object"},
+        "epoch_resolution": {"integrator": "RK45", "configs": "no SRP", "spans_s": ">= 300", "tolerance": f"tol_pos/{RES_FLOOR_DIV:g} + {EPOCH_RES_S:g} s x measured sensitivity"},
         "epoch_split": {
             "elapsed_T_s": ES_T, "elapsed_T_s_sp_srp": ES_T_SRP, "spans_s": ES_SPANS, "rk45_one_hour_leo_T_s": "all" if tier == "thorough" else ES_RK45_HOUR_T,
             "span_300_s": "all orbits" if tier == "thorough" else "a < 12000 km only",
-            "splits": ["(S, T)", "(S+T, 0)", "(S+T1, T-T1), T1 = 300 floor(T/600) [DOP853]", "absolute-epoch reference"],
+            "splits": ["(S, T)", "(S+T, 0)", "(S+T1, T-T1), T1 = 300 floor(T/600) [DOP853]", "(S+d, T-d), d fractional", "absolute-epoch reference"],
+            "fractional_split_d_s_by_T": {f"{k:g}": v for k, v in ES_FRAC_SPLIT.items()},
+            "ms_start": {"start_fraction_s": ES_START_MS, "elapsed_T_s": ES_T_MS, "elapsed_T_s_sp_srp": ES_T_MS_SRP, "span_s": ES_SPANS[0], "orbits": "a < 12000 km",
+                         "items": sum(1 for it in its if it[0] == "epoch_split" and len(it) > 8 and it[8])},
             "configs": sorted({it[1] for it in its if it[0] == "epoch_split"}), "clock_step_s": ES_CLOCK_STEP,
             "orbits": sorted({tuple(it[7][:3]) for it in its if it[0] == "epoch_split"}),
             "items": sum(1 for it in its if it[0] == "epoch_split"),
@@ -828,23 +907,144 @@ def _conserve(ctx, orb, x0, x1, nontrivial, where):
                      outcome="within" if val <= tol else "outside", item=ctx.item)
 
 
+def _abs_dt(jd):
+    """UTC datetime of a Julian date of the lattice (own arithmetic: the difference of two doubles of the same binade is
+    exact, the timedelta keeps microseconds)."""
+    return datetime(2018, 6, 15, 7, 30, 0) + timedelta(days=float(jd) - 2458284.8125)
+
+
+def _frac_starts(jd):
+    """Start epochs that are not whole seconds: [(name, julian date)]."""
+    return [("ms_timestamp", jd + FRAC_START_MS / 86400.0), ("typed_julian_date", math.floor(jd) + FRAC_START_TYPED_JD)]
+
+
+def _perigee_rate(a, e):
+    rp = a * (1.0 - e)
+    return math.sqrt(MU * (1.0 + e) / rp) / rp
+
+
+def _res_tol(a, e, T, w0, w1):
+    """Tolerance of the epoch-resolution subcheck (RK45, smooth force models) from the measured effect of moving the
+    force-model epoch by one second (w1 against w0): see module docstring.  Returns (tol_km, tol_kms, resolvable)."""
+    n = _perigee_rate(a, e)
+    sens = max(fw.maxabs(w1[:3], w0[:3]), fw.maxabs(w1[3:], w0[3:]) / n)  # km per second of epoch slip
+    tp = tol_pos(a, e, T) / RES_FLOOR_DIV + EPOCH_RES_S * sens
+    return tp, tp * n + 1e-15, bool(0.25 * sens > 4.0 * tp)
+
+
+class _ForceRef:
+    """Acceleration of the independent reference force model at absolute UTC instants (cached), with the tolerance of
+    the force-epoch subcheck: EPOCH_RES_S seconds of the reference's own rate of change of the acceleration with the epoch
+    at fixed state (difference over one second: the Earth turns 7e-5 rad, linear), plus 2e-15 |a| for the summation of the
+    acceleration terms (measured library - reference at whole-second splits: <= 1e-16 |a| where the rate term vanishes)."""
+
+    def __init__(self, kind):
+        self.kind = kind
+        self.cache = {}
+
+    def at(self, when, x):
+        key = (when, tuple(float(c) for c in x))
+        if key not in self.cache:
+            deg, order, bodies, srp, gr = SP_CFG[self.kind]
+            args = (ES_MODEL, deg, order, list(bodies), srp, gr, SAT_RATIO)
+            a0 = np.asarray(spref.acceleration(when, x[:3], x[3:], *args), dtype=float)
+            a1 = np.asarray(spref.acceleration(when + timedelta(seconds=1.0), x[:3], x[3:], *args), dtype=float)
+            rate = float(np.max(np.abs(a1 - a0)))
+            tol = EPOCH_RES_S * rate + 2e-15 * float(np.linalg.norm(a0))
+            self.cache[key] = (a0, rate, tol, bool(0.1 * rate > 10.0 * tol))
+        return self.cache[key]
+
+
+def _derivative(obj, t_el, x):
+    """The derivative the integrator sees: ``_differentialEquation`` (the property's anchor: the place where the force-model
+    epoch is formed from start date and elapsed seconds), called the way solve_ivp calls it (plain float time, 1-D state)."""
+    return _call(obj._differentialEquation, float(t_el), np.array(x, dtype=float))  # noqa: SLF001
+
+
+def _force_epoch(ctx, orb, got, x, want, rate, tol, *, nontrivial, detail, extra):
+    """got = _derivative(object, elapsed time, x): velocity part = the state's velocity, acceleration = want within tol."""
+    case = ctx.base(orb, **extra)
+    sig = f"C03/force_epoch/{ctx.kind}/{detail}"
+    if _bad(got) or np.asarray(got).shape != (6,) or not np.all(np.isfinite(got)):
+        return ctx.res.case("force_epoch", case, False, nontrivial=nontrivial, signature=f"{sig}/exception_or_shape",
+                            observed=repr(got)[:200], expected="a (6,) derivative", item=ctx.item)
+    got = np.asarray(got, dtype=float)
+    err = fw.maxabs(got[3:], want)
+    ok = err <= tol and bool(np.array_equal(got[:3], np.asarray(x, dtype=float)[3:]))
+    ctx.ratio("force_epoch", err / tol)
+    ctx.res.observe(got)
+    return ctx.res.case("force_epoch", case, ok, nontrivial=nontrivial, signature=sig,
+                        observed={"acc_err_kms2": err, "epoch_slip_equivalent_s": err / rate if rate > 0.0 else None, "derivative": got},
+                        expected={"tol_kms2": tol, "acceleration": want}, outcome="within" if ok else "outside", item=ctx.item)
+
+
 def _epoch(ctx, orb, x0, whole, jd):
     T, t0 = ctx.T, ctx.t0
-    tp = tol_epoch(orb[0], orb[1], T) + ctx.srp_pos
-    tv = tol_vel(orb[0], orb[1], T) / 5.0 + ctx.srp_vel
+    kind, method = ctx.kind, ctx.method
+    a, e = orb[0], orb[1]
+    tp = tol_epoch(a, e, T) + ctx.srp_pos
+    tv = tol_vel(a, e, T) / 5.0 + ctx.srp_vel
     # measured sensitivity: the same call with the epoch moved by 1000 s and t NOT compensated
-    wit = _call(_dynamics(ctx.kind, ctx.method, jd + 1000.0 / 86400.0).propagate, t0, t0 + T, x0)
+    wit = _call(_dynamics(kind, method, jd + 1000.0 / 86400.0).propagate, t0, t0 + T, x0)
     sens = 0.0 if _bad(wit) else fw.maxabs(wit[:3], whole[:3])
-    shifts = EPOCH_SHIFTS if ctx.mode != "sp_lean" else [1000.0, 86400.0]
-    if ctx.kind == "sp_srp":
+    lean = ctx.mode == "sp_lean"
+    shifts = EPOCH_SHIFTS if not lean else [1000.0, 86400.0]
+    frac = EPOCH_SHIFTS_FRAC if not lean else EPOCH_SHIFTS_FRAC_LEAN
+    frac_prop = frac
+    if kind == "sp_srp":
         shifts = [86400.0, 30.0 * 86400.0]  # the Sun direction moves ~1 deg/day: a month makes an epoch slip in SRP visible
-    for d in shifts:
-        if t0 - d < 0.0:
-            continue  # elapsed scenario seconds are non-negative in the property's domain (SP items start at t0 >= 86400 s)
-        dyn2 = _dynamics(ctx.kind, ctx.method, jd + d / 86400.0)
-        got = _call(dyn2.propagate, t0 - d, t0 + T - d, x0)
-        nontriv = sens * abs(d) / 1000.0 > 100.0 * tp
-        ctx.compare("epoch_shift", orb, got, whole, tp, tv, nontrivial=nontriv, detail="shifted_start", extra={"delta_s": d, "sensitivity_km_per_1000s": sens})
+        frac_prop = []  # no tesseral field: a sub-second epoch slip moves the state by < 1e-10 km (force-epoch subcheck only)
+    if T < 300.0:
+        frac_prop = []  # a sub-second epoch slip moves the state by < 1e-9 km in ten seconds (force-epoch subcheck only)
+    # epoch resolution through propagate: RK45 on smooth force models, spans from five minutes (see module docstring)
+    tight = method == "RK45" and not SP_CFG[kind][3] and T >= 300.0
+    starts = [("whole_second", jd, whole, shifts + frac_prop, shifts + frac)]
+    for name, jb in _frac_starts(jd):
+        wb = None
+        if tight and not lean:
+            wb = _call(_dynamics(kind, method, jb).propagate, t0, t0 + T, x0)
+            if _bad(wb) or np.asarray(wb).shape != (6,):
+                ctx.compare("epoch_shift", orb, wb, x0, math.inf, math.inf, nontrivial=True, detail="fractional_start", extra={"start": name})
+                wb = None
+        starts.append((name, jb, wb, FRAC_START_SHIFTS if wb is not None else [], FRAC_START_SHIFTS + [1800.4]))
+    fref = _ForceRef(kind)
+    for name, jb, wb, prop_shifts, force_shifts in starts:
+        res_tol = None
+        if tight and wb is not None:
+            w1 = _call(_dynamics(kind, method, jb + 1.0 / 86400.0).propagate, t0, t0 + T, x0)
+            if not _bad(w1):
+                res_tol = _res_tol(a, e, T, wb, w1)
+        for d in prop_shifts:
+            if t0 - d < 0.0:
+                continue  # elapsed scenario seconds are non-negative in the property's domain (SP items start at t0 >= 86400 s)
+            dyn2 = _dynamics(kind, method, jb + d / 86400.0)
+            got = _call(dyn2.propagate, t0 - d, t0 + T - d, x0)
+            nontriv = sens * abs(d) / 1000.0 > 100.0 * tp
+            extra = {"delta_s": d, "sensitivity_km_per_1000s": sens}
+            if name != "whole_second":
+                extra["start"] = name
+            ctx.compare("epoch_shift", orb, got, wb, tp, tv, nontrivial=nontriv, detail="shifted_start", extra=extra)
+            if res_tol is not None:
+                ctx.compare("epoch_resolution", orb, got, wb, res_tol[0], res_tol[1], nontrivial=res_tol[2], detail="shifted_start",
+                            extra={"delta_s": d, "start": name, "tol_is_epoch_slip_of_s": EPOCH_RES_S})
+        # the derivative itself at both ends of the span, for every split of the two absolute instants
+        when0 = _abs_dt(jb)
+        unshifted = _dynamics(kind, method, jb)
+        for t_abs, x in ((t0, x0), (t0 + T, whole)):
+            want, rate, tol, resolvable = fref.at(when0 + timedelta(seconds=t_abs), x)
+            base_acc = None
+            for d in [0.0] + force_shifts:
+                if t0 - d < 0.0:
+                    continue
+                obj = unshifted if d == 0.0 else _dynamics(kind, method, jb + d / 86400.0)
+                extra = {"delta_s": d, "start": name, "elapsed_s": t_abs - d, "acc_rate_kms2_per_s": rate}
+                acc = _derivative(obj, t_abs - d, x)
+                _force_epoch(ctx, orb, acc, x, want, rate, tol, nontrivial=resolvable and (d != 0.0 or name != "whole_second"),
+                             detail="vs_absolute_epoch_reference", extra=extra)
+                if d == 0.0:
+                    base_acc = None if (_bad(acc) or np.asarray(acc).shape != (6,)) else np.asarray(acc, dtype=float)[3:]
+                elif base_acc is not None:
+                    _force_epoch(ctx, orb, acc, x, base_acc, rate, tol, nontrivial=resolvable, detail="split_vs_split", extra=extra)
 
 
 # ------------------------------------------------------------------------------------------------ epoch split (factory + clock)
@@ -858,10 +1058,14 @@ def _clock(start, T):
     step = ES_CLOCK_STEP if T <= 10.0 * 86400.0 else 3600.0
     scen.fresh()
     setDBPath("sqlite://")
-    clk = ScenarioClock(start, T + 2.0 * step, step)
-    for _ in range(int(round(T / step))):
+    n = int(math.floor(T / step + 1e-9))
+    rem = T - n * step
+    clk = ScenarioClock(start, (n + 2) * step, step)
+    for _ in range(n):
         clk.ticToc()
-    if float(clk.time) != float(T):
+    if rem > 1e-9:
+        clk.ticToc(rem)  # a last partial tick: elapsed times that are not a multiple of the step (fractional start-date shifts)
+    if (rem <= 1e-9 and float(clk.time) != float(T)) or abs(float(clk.time) - float(T)) > 1e-9:
         raise RuntimeError(f"harness: clock at {float(clk.time)} instead of {T}")
     return clk
 
@@ -878,13 +1082,15 @@ def _factory_dynamics(kind, method, start, T, x0):
 
 
 def _run_epoch_split(res, item):
-    _, kind, span, Ts, rk_T, jd, seed, orb = item
-    span, jd = float(span), float(jd)
+    _, kind, span, Ts, rk_T, jd, seed, orb = item[:8]
+    s_off = float(item[8]) if len(item) > 8 else 0.0  # fraction of a second carried by the start timestamp
+    span, jd = float(span), float(jd) + s_off / 86400.0
     deg, order, bodies, srp, gr = SP_CFG[kind]
-    start = _start_dt(seed)
+    start = _start_dt(seed) + timedelta(seconds=s_off)
     x0 = _state(orb)
     a, e = orb[0], orb[1]
     ratios = {}
+    fref = _ForceRef(kind)
     for T in [float(t) for t in Ts]:
         when = start + timedelta(seconds=T)
         # (c) independent reference: the state `span` seconds after the absolute instant S + T (no start/elapsed pair)
@@ -892,6 +1098,7 @@ def _run_epoch_split(res, item):
         if _bad(ref):
             raise RuntimeError(f"harness: reference trajectory failed: {ref!r}")
         ref = ref[0]
+        acc_ref, acc_rate, acc_tol, acc_resolvable = fref.at(when, x0)
         # measured effect of counting T twice: direct construction with the epoch moved by T, elapsed time not compensated
         sens = 0.0
         if T > 0.0:
@@ -907,6 +1114,8 @@ def _run_epoch_split(res, item):
             tp_r = tol_pos(a, e, span) + (2.0 * A_SRP * span * span if srp else 0.0)
             tv_r = tol_vel(a, e, span) + (8.0 * A_SRP * span if srp else 0.0)
             extra = {"elapsed_T": T, "sensitivity_km": sens}
+            if s_off:
+                extra["start_fraction_s"] = s_off
             dyn_a = _call(_factory_dynamics, kind, method, start, T, x0)
             got_a = dyn_a if _bad(dyn_a) else _call(dyn_a.propagate, ScenarioTime(T), ScenarioTime(T + span), x0.copy())
             ctx.compare("epoch_split", orb, got_a, ref, tp_r, tv_r, nontrivial=sens > 100.0 * tp_r, detail="factory_vs_absolute_epoch_reference",
@@ -914,22 +1123,47 @@ def _run_epoch_split(res, item):
             if _bad(got_a) or np.asarray(got_a).shape != (6,):
                 continue
             res.observe(got_a)
+            # the derivative the factory-built object hands to the integrator at elapsed time T, against the reference
+            # force model at the absolute instant S + T (non-trivial when T > 0 or the start carries a fraction of a second)
+            acc_a = _derivative(dyn_a, T, x0)
+            _force_epoch(ctx, orb, acc_a, x0, acc_ref, acc_rate, acc_tol, nontrivial=acc_resolvable and (T > 0.0 or s_off != 0.0),
+                         detail="factory_vs_absolute_epoch_reference", extra=dict(extra, split="(S, T)"))
             if T == 0.0:
                 continue
+            acc_a = None if (_bad(acc_a) or np.asarray(acc_a).shape != (6,)) else np.asarray(acc_a, dtype=float)[3:]
+            # epoch resolution through propagate (RK45, smooth force models): the same object one second later
+            res_tol = None
+            if method == "RK45" and not srp:
+                w1 = _call(dyn_a.propagate, ScenarioTime(T + 1.0), ScenarioTime(T + 1.0 + span), x0.copy())
+                if not _bad(w1):
+                    res_tol = _res_tol(a, e, span, got_a, w1)
             splits = [("factory_vs_restarted_clock", T)]
             t1 = 300.0 * math.floor(T / 600.0)
             if method == "DOP853" and 0.0 < t1 < T:
                 splits.append(("factory_vs_other_split", t1))
+            if T in ES_FRAC_SPLIT:
+                splits.append(("factory_vs_fractional_split", ES_FRAC_SPLIT[T]))
             for detail, shift in splits:
-                dyn_b = _call(_factory_dynamics, kind, method, start + timedelta(seconds=shift), T - shift, x0)
-                got_b = dyn_b if _bad(dyn_b) else _call(dyn_b.propagate, ScenarioTime(T - shift), ScenarioTime(T - shift + span), x0.copy())
+                te = T - shift
+                dyn_b = _call(_factory_dynamics, kind, method, start + timedelta(seconds=shift), te, x0)
+                got_b = dyn_b if _bad(dyn_b) else _call(dyn_b.propagate, ScenarioTime(te), ScenarioTime(te + span), x0.copy())
+                ex = dict(extra, split=f"(S+{shift:g}, {te:g})")
                 # with the elapsed time counted twice the two runs sit at S + 2T and S + 2T - shift: they differ by `shift`
-                ctx.compare("epoch_split", orb, got_b, got_a, tp_e, tv_e, nontrivial=sens * shift / T > 100.0 * tp_e, detail=detail,
-                            extra=dict(extra, split=f"(S+{shift:g}, {T - shift:g})"))
+                ctx.compare("epoch_split", orb, got_b, got_a, tp_e, tv_e, nontrivial=sens * shift / T > 100.0 * tp_e, detail=detail, extra=ex)
                 # and each split on its own against the absolute-epoch reference
                 ctx.compare("epoch_split", orb, got_b, ref, tp_r, tv_r, nontrivial=sens * (T - shift) / T > 100.0 * tp_r,
-                            detail="factory_vs_absolute_epoch_reference", extra=dict(extra, split=f"(S+{shift:g}, {T - shift:g})"))
-    res.case("input_unchanged", {"dyn": kind, "a": a, "e": e, "family": "epoch_split"}, bool(np.array_equal(x0, _state(orb))),
+                            detail="factory_vs_absolute_epoch_reference", extra=ex)
+                if _bad(got_b) or np.asarray(got_b).shape != (6,):
+                    continue
+                if res_tol is not None:
+                    ctx.compare("epoch_resolution", orb, got_b, got_a, res_tol[0], res_tol[1], nontrivial=res_tol[2], detail=detail,
+                                extra=dict(ex, tol_is_epoch_slip_of_s=EPOCH_RES_S))
+                acc_b = _derivative(dyn_b, te, x0)
+                _force_epoch(ctx, orb, acc_b, x0, acc_ref, acc_rate, acc_tol, nontrivial=acc_resolvable,
+                             detail="factory_vs_absolute_epoch_reference", extra=ex)
+                if acc_a is not None:
+                    _force_epoch(ctx, orb, acc_b, x0, acc_a, acc_rate, acc_tol, nontrivial=acc_resolvable, detail=detail, extra=ex)
+    res.case("input_unchanged", {"dyn": kind, "a": a, "e": e, "family": "epoch_split", "start_fraction_s": s_off}, bool(np.array_equal(x0, _state(orb))),
              signature=f"C03/input_mutated/{kind}/epoch_split", item=item)
     return ratios
 
@@ -1335,7 +1569,7 @@ def run_item(item):
     if kind == "prop":
         res.ratio_group = f"{item[1]}/{item[2]}/T={item[3]:g}"
     elif kind == "epoch_split":
-        res.ratio_group = f"epoch_split/{item[1]}/span={item[2]:g}/a={item[7][0]:g}"
+        res.ratio_group = f"epoch_split/{item[1]}/span={item[2]:g}/a={item[7][0]:g}" + ("/ms_start" if len(item) > 8 and item[8] else "")
     return res
 
 
